@@ -36,9 +36,16 @@ def _worker(item):
         cov = _Cov(ctx.L.repo) if opts.get('cover') else None
         if cov:
             cov.start()
+        import signal
+
+        def _alarm(sig, frm):
+            raise runner.ConfigTimeout('configuration exceeded %d s' % opts['cfg_timeout'])
+        signal.signal(signal.SIGALRM, _alarm)
+        signal.alarm(opts['cfg_timeout'])
         try:
             rec = runner.check_config(prop, cfg, ctx, validate=opts.get('validate', True), want_smt2=opts.get('want_smt2', 0))
         finally:
+            signal.alarm(0)
             if cov:
                 rec_cov = cov.stop()
         if cov:
@@ -125,7 +132,7 @@ def main(argv):
     if limit:
         cfgs = cfgs[:limit]
     opts = dict(repo=repo, timeout_ms=int(os.environ.get('SX_TIMEOUT_MS', '60000')), max_paths=int(getattr(prop, 'MAX_PATHS', 20000)),
-                validate=True, cover=False, want_smt2=0)
+                validate=True, cover=False, want_smt2=0, cfg_timeout=int(os.environ.get('SX_CFG_TIMEOUT', '600')))
     items = []
     # coverage and SMT-LIB2 export on a few configurations
     n_cross = 200 if tier == 'thorough' else 12
@@ -143,7 +150,10 @@ def main(argv):
     for ci, can in enumerate(canaries):
         for c in can['cfgs']:
             items.append((pid, c, 'canary%d' % ci, can['mutate'], dict(opts, validate=False)))
-    # longest first is unknown; simple dynamic scheduling with small chunks
+    # expensive configurations first (the property may estimate cost), then dynamic scheduling one item at a time
+    costf = getattr(prop, 'cost', None)
+    if costf is not None:
+        items.sort(key=lambda it: -costf(it[1]))
     results = []
     if jobs == 1:
         for it in items:
@@ -152,7 +162,7 @@ def main(argv):
     else:
         ctx = mp.get_context('fork')
         with ctx.Pool(jobs) as pool:
-            for r in pool.imap_unordered(_worker, items, chunksize=max(1, min(8, len(items) // (jobs * 8) or 1))):
+            for r in pool.imap_unordered(_worker, items, chunksize=(1 if costf is not None else max(1, min(8, len(items) // (jobs * 8) or 1)))):
                 results.append(r)
             pool.map(_cleanup, range(jobs * 2))
     return finish(pid, prop, tier, seed, repo, results, canaries, time.time() - t0)
